@@ -38,6 +38,9 @@ type genCfg struct {
 	propWrites  bool // scripts may write their (copied) step properties
 	errorNode   bool // the spec may define its own (non-terminal) "error" node
 	multiCand   bool // patterns that match in several ways, with guards that accept some candidates (outcome may be arbitrary)
+	nativeOnly  bool // every action and guard is native (no interpreter, no goroutines)
+	inPlace     bool // native guards may work directly on the bindings they are handed
+	ext         bool // scripts run in the extended interpreter and may call _.randstr()
 	sameStub    bool // native actions that hand back the very bindings they were given
 	varStrings  bool // message values may be strings that look like pattern variables ("?v"): data, not patterns
 }
@@ -160,8 +163,11 @@ func genMessage(c *sim.Ctx) interface{} {
 
 func genAction(c *sim.Ctx, cfg genCfg, names []string, guard bool) *ref.Action {
 	a := &ref.Action{}
-	if cfg.native && c.Chance(1, 3, "native") {
+	if cfg.native && (cfg.nativeOnly || c.Chance(1, 3, "native")) {
 		a.Native = true
+		if guard && cfg.inPlace && c.Chance(1, 2, "inplace") {
+			a.InPlace = true
+		}
 		if cfg.stubs && c.Chance(1, 4, "stub") {
 			// "same": hands back the very bindings it was given, as the shipped noop
 			// interpreter and the sio captain's native action do
@@ -185,7 +191,13 @@ func genAction(c *sim.Ctx, cfg genCfg, names []string, guard bool) *ref.Action {
 			if guard && !cfg.guardEmits {
 				continue
 			}
-			a.Ops = append(a.Ops, ref.Op{Kind: "emitb", K: "?v"})
+			// mostly the matched value; sometimes another binding, and sometimes the emitted
+			// value is changed in place right afterwards (the message must keep what it was)
+			ek := append(append([]string{"?v", "?v", "?v"}, bsKeys...), "k!")[c.Intn(7, "emitbkey")]
+			a.Ops = append(a.Ops, ref.Op{Kind: "emitb", K: ek})
+			if c.Chance(1, 3, "emitthennest") {
+				a.Ops = append(a.Ops, ref.Op{Kind: "nest", K: ek, K2: "q", V: genConst(c)})
+			}
 		case k <= 6:
 			key := append(append([]string{}, bsKeys...), "?v", "k!", "next")[c.Intn(6, "setkey")]
 			var v interface{} = genValue(c, 0)
@@ -226,6 +238,8 @@ func genAction(c *sim.Ctx, cfg genCfg, names []string, guard bool) *ref.Action {
 			if cfg.propWrites && !a.Native {
 				a.Ops = append(a.Ops, ref.Op{Kind: "propset"})
 			}
+		case k == 14 && cfg.ext && c.Chance(1, 2, "randstr"):
+			a.Ops = append(a.Ops, ref.Op{Kind: "randstr"})
 		case k == 14:
 			if cfg.nullRet || guard {
 				a.Ops = append(a.Ops, ref.Op{Kind: "retnull"})
@@ -239,6 +253,7 @@ func genSpec(c *sim.Ctx, cfg genCfg) *ref.Spec {
 	ineqName = "?<n" + cfg.ineqSuffix
 	genMultiCand = cfg.multiCand
 	genVarStrings = cfg.varStrings
+	genExt = cfg.ext
 	nn := 2 + c.Intn(cfg.maxNodes-1, "nnodes")
 	names := make([]string, nn)
 	for i := range names {
@@ -274,6 +289,12 @@ func genSpec(c *sim.Ctx, cfg genCfg) *ref.Spec {
 			}
 			if cfg.guards && c.Chance(1, 4, "guard") {
 				b.Guard = genAction(c, cfg, names, true)
+				if !b.HasPat || b.Pattern == nil {
+					// without a pattern the guard is handed the state's own bindings, as a native
+					// action is; only a match result is the guard's to change (C03: each result
+					// is an independent map)
+					b.Guard.InPlace = false
+				}
 			}
 			n.Branches = append(n.Branches, b)
 		}
@@ -411,6 +432,15 @@ func renderJS(a *ref.Action) string {
 			sb.WriteString("return [1];\n")
 		case "retfn":
 			sb.WriteString("return function() { return 1; };\n")
+		case "randstr":
+			sb.WriteString("bs[\"r\"] = typeof _.randstr();\n")
+		case "matchstore":
+			// (extended interpreter) what the pattern matcher utility answers, kept in the bindings
+			if op.K2 == "first" {
+				fmt.Fprintf(&sb, "bs[%s] = _.match({\"a\": \"?x\"}, {\"a\": %s, \"b\": 2}, {})[0];\n", jsLit(op.K), jsLit(op.V))
+			} else {
+				fmt.Fprintf(&sb, "bs[%s] = _.match({\"a\": \"?x\"}, {\"a\": %s, \"b\": 2}, {});\n", jsLit(op.K), jsLit(op.V))
+			}
 		case "retdate":
 			sb.WriteString("return new Date(0);\n")
 		case "retgetter":
@@ -432,6 +462,9 @@ func renderJS(a *ref.Action) string {
 
 var errStub = errors.New("stub interpreter error")
 
+// nativeHook, when set by a harness, runs at the start of every native action or guard.
+var nativeHook func()
+
 // nativeAction renders an action as a native Go action.  It never modifies its
 // argument in place (a native action is trusted code handed the live map).
 func nativeAction(a *ref.Action) *core.FuncAction {
@@ -451,8 +484,13 @@ func nativeAction(a *ref.Action) *core.FuncAction {
 		case "same":
 			return core.NewExecution(in), nil
 		}
+		if nativeHook != nil {
+			nativeHook()
+		}
 		var w map[string]interface{}
-		if in != nil {
+		if in != nil && a.InPlace {
+			w = map[string]interface{}(in)
+		} else if in != nil {
 			w = ref.CopyBs(map[string]interface{}(in))
 		} else {
 			w = map[string]interface{}{}
@@ -471,6 +509,13 @@ func nativeAction(a *ref.Action) *core.FuncAction {
 					w[op.K] = v
 				}
 			case "nest":
+				if a.InPlace {
+					// the map is the guard's to change, the values in it are shared with the
+					// message and the state: replace, do not reach into them
+					if v, ok := w[op.K]; ok {
+						w[op.K] = ref.CopyVal(v)
+					}
+				}
 				ref.NestInto(w[op.K], op.K2, op.V)
 			case "require":
 				if v, ok := w[op.K]; !ok || ref.Canon(v) != ref.Canon(op.V) {
@@ -478,8 +523,22 @@ func nativeAction(a *ref.Action) *core.FuncAction {
 				}
 			case "del":
 				delete(w, op.K)
+			case "randstr":
+				w["r"] = fmt.Sprintf("%T", core.Gensym(8))
+			case "matchstore":
+				if op.K2 == "first" {
+					w[op.K] = map[string]interface{}{"?x": ref.CopyVal(op.V)}
+				} else {
+					w[op.K] = []interface{}{map[string]interface{}{"?x": ref.CopyVal(op.V)}}
+				}
 			case "clear":
-				w = map[string]interface{}{}
+				if a.InPlace {
+					for k := range w {
+						delete(w, k)
+					}
+				} else {
+					w = map[string]interface{}{}
+				}
 			case "throw":
 				return nil, errors.New("boom")
 			case "retbad", "retarr", "retfn", "retdate", "retgetter":
@@ -494,6 +553,12 @@ func nativeAction(a *ref.Action) *core.FuncAction {
 }
 
 var interpreters = core.InterpretersMap{"ecmascript": ecmascript.NewInterpreter()}
+
+// interpretersExt: the same name bound to the extended interpreter (_.randstr, _.match, ...).
+var interpretersExt = core.InterpretersMap{"ecmascript": &ecmascript.Interpreter{Extended: true}}
+
+// genExt: the program being generated runs in the extended interpreter.
+var genExt = false
 
 // compile builds a fresh core.Spec from the generated one and compiles it.
 func compile(s *ref.Spec) (*core.Spec, error) {
@@ -537,7 +602,11 @@ func compile(s *ref.Spec) (*core.Spec, error) {
 		}
 		spec.Nodes[name] = cn
 	}
-	if err := spec.Compile(context.Background(), interpreters, true); err != nil {
+	ints := interpreters
+	if genExt {
+		ints = interpretersExt
+	}
+	if err := spec.Compile(context.Background(), ints, true); err != nil {
 		return nil, err
 	}
 	return spec, nil
